@@ -158,7 +158,7 @@ def oracle_c01(an):
         if not an.requested(iid) or an.request_failed(iid):
             continue
         req = ia.get('req', {})
-        facts = dict(kind=kind, by=an.requester(iid), framing=an.plan.get('framing', 'tcp'))
+        facts = dict(kind=kind, by=an.requester(iid), framing=an.plan.get('framing', 'tcp'), iid=iid)
         cancel_seq = an.cancel_seq(iid)
         # --- request payload reaches exactly the matching handler, once, intact
         method = {'rr': 'request_response', 'fnf': 'request_fire_and_forget', 'stream': 'request_stream',
